@@ -34,6 +34,17 @@
 (* observed): it may be dispatched again -- it then re-enters the memory as    *)
 (* the newest -- or an endpoint with a longer memory may suppress it.          *)
 (*                                                                         *)
+(* Ping: the peer's StartPingCheck announces `oldest`, the oldest reliable      *)
+(* packet ID it still may retransmit (a truthful peer: one whose ack it has      *)
+(* not seen, or its next unsent ID; the environment may also say anything).      *)
+(* The endpoint answers every ping with one CompletePingCheck.  The announce-     *)
+(* ment RELEASES the endpoint from remembering IDs below it (floor = the          *)
+(* highest announcement): a duplicate of such an ID contradicts the peer's own    *)
+(* word and what happens to it is left open, like a duplicate of an ID pushed     *)
+(* out of the memory.  For every other remembered ID -- in particular for         *)
+(* `oldest` itself, the one the peer IS still retransmitting -- dispatch-once     *)
+(* stands unchanged.                                                              *)
+(*                                                                         *)
 (* Life of the circuit: `alive` is "pending" when the endpoint has created    *)
 (* the circuit but the handshake is not finished (HippoClientSession.           *)
 (* open_circuit: is_alive = False), "alive" after it (connect() sets it once    *)
@@ -72,11 +83,15 @@ VARIABLES seen,        \* de-duplication memory: the last <= Window distinct inb
           alive,       \* "pending" | "alive" | "dead"
           abandoned,   \* ids of reliable sends orphaned by disconnect(): their futures stay pending for ever
           epoch,       \* ghost: Len(ids) at the disconnect (packet IDs start over there), 0 before
+          floor,       \* highest `oldest` announced by a StartPingCheck (0: none): IDs below it are released
+          pongs,       \* ghost: number of pings answered
+          openSeen,    \* ghost: inbound reliable pids that had a receipt whose dispatch was left open
           subs,        \* per level: the subscribers registered after the permanent one, <<[k |-> kind, live |-> BOOLEAN]..>>
           out          \* observable output of the last step
 
-vars == <<seen, evN, rR, aR, dR, rU, dU, pend, done, failed, relIssued, ackedSince, xmits, ids, lastId, alive, abandoned, epoch, subs, out>>
-core == <<seen, evN, rR, aR, dR, rU, dU, pend, done, failed, relIssued, ackedSince, xmits, ids, lastId, alive, abandoned, epoch, subs>>
+vars == <<seen, evN, rR, aR, dR, rU, dU, pend, done, failed, relIssued, ackedSince, xmits, ids, lastId, alive, abandoned, epoch, floor, pongs, openSeen, subs, out>>
+core == <<seen, evN, rR, aR, dR, rU, dU, pend, done, failed, relIssued, ackedSince, xmits, ids, lastId, alive, abandoned, epoch, floor, pongs, openSeen, subs>>
+aux == <<floor, pongs, openSeen>>
 life == <<alive, abandoned, epoch>>
 
 Get(f, k) == IF k \in DOMAIN f THEN f[k] ELSE 0
@@ -86,13 +101,15 @@ Range(q) == {q[i] : i \in DOMAIN q}
 Remembered(p) == p \in Range(seen)
 EverSeen(p) == p \in DOMAIN rR
 \* p becomes the newest remembered ID; the oldest one falls out of a full memory
-Admit(q, p) == IF Len(q) >= Window THEN Append(Tail(q), p) ELSE Append(q, p)
-Evicts(q) == IF Len(q) >= Window THEN {Head(q)} ELSE {}
+\* (a released ID that is dispatched again moves to the newest place)
+Without(q, p) == SelectSeq(q, LAMBDA x : x # p)
+Admit(q, p) == IF Len(Without(q, p)) >= Window THEN Append(Tail(Without(q, p)), p) ELSE Append(Without(q, p), p)
+Evicts(q, p) == IF Len(Without(q, p)) >= Window THEN {Head(Without(q, p))} ELSE {}
 Xm(id) == (CHOOSE x \in xmits : x[1] = id)[2]
 Levels == {"sess", "reg"}
 Kinds == {"perm", "once", "retTrue", "waitfor"}      \* all but "perm" remove themselves when they are called
 NoCalls == [l \in Levels |-> [i \in 1..Len(subs[l]) |-> 0]]
-NoOut == [acks |-> <<>>, deliver |-> FALSE, open |-> FALSE, tx |-> {}, completed |-> {}, failed |-> {}, calls |-> NoCalls]
+NoOut == [acks |-> <<>>, deliver |-> FALSE, byname |-> TRUE, pong |-> FALSE, open |-> FALSE, tx |-> {}, completed |-> {}, failed |-> {}, calls |-> NoCalls]
 
 \* --- the dispatch loop (Event.notify) over the live extra subscribers of one level ---
 \* positions (in subs[l]) of the subscribers that are called when one message is dispatched
@@ -116,7 +133,7 @@ CallsOf(deliver, match) == [l \in Levels |-> [i \in 1..Len(subs[l]) |->
                                IF deliver /\ match /\ i \in MustCall(subs[l]) THEN 1 ELSE 0]]
 
 InitWith(a) ==
-        /\ alive = a /\ abandoned = {} /\ epoch = 0
+        /\ alive = a /\ abandoned = {} /\ epoch = 0 /\ floor = 0 /\ pongs = 0 /\ openSeen = {}
         /\ seen = <<>> /\ evN = <<>> /\ rR = <<>> /\ aR = <<>> /\ dR = <<>> /\ rU = <<>> /\ dU = <<>>
         /\ pend = {} /\ done = {} /\ failed = {} /\ relIssued = {} /\ ackedSince = {} /\ xmits = {}
         /\ ids = <<>> /\ lastId = -1 /\ subs = [l \in Levels |-> <<>>] /\ out = NoOut
@@ -124,13 +141,13 @@ Init == InitWith("pending")       \* as the client endpoint creates its circuits
 
 (* The handshake completes (connect(): is_alive = True).  Nothing observable happens.        *)
 GoAlive == /\ alive = "pending" /\ alive' = "alive"
-           /\ UNCHANGED <<seen, evN, rR, aR, dR, rU, dU, pend, done, failed, relIssued, ackedSince, xmits, ids, lastId, abandoned, epoch, subs>>
+           /\ UNCHANGED <<seen, evN, rR, aR, dR, rU, dU, pend, done, failed, relIssued, ackedSince, xmits, ids, lastId, abandoned, epoch, subs, aux>>
            /\ out' = NoOut
 (* disconnect() -- the unchanged code, as an assumption: pending sends are orphaned, IDs start over. *)
 Disconnect == /\ alive # "dead" /\ alive' = "dead"
               /\ abandoned' = abandoned \cup PendIds /\ pend' = {}
               /\ lastId' = -1 /\ epoch' = Len(ids)
-              /\ UNCHANGED <<seen, evN, rR, aR, dR, rU, dU, done, failed, relIssued, ackedSince, xmits, ids, subs>>
+              /\ UNCHANGED <<seen, evN, rR, aR, dR, rU, dU, done, failed, relIssued, ackedSince, xmits, ids, subs, aux>>
               /\ out' = NoOut
 
 (* A datagram from the peer: packet ID p, reliable flag rel, carrying the set `acks` of      *)
@@ -140,33 +157,49 @@ Disconnect == /\ alive # "dead" /\ alive' = "dead"
 (* redeliver = what the endpoint does with a duplicate of an ID it no longer has to remember. *)
 Recv(p, rel, acks, aid, match, redeliver) ==
     LET hit == acks \cap PendIds
-        forgotten == EverSeen(p) /\ ~Remembered(p)               \* pushed out of the memory: open
-        deliver == ~EverSeen(p) \/ (forgotten /\ redeliver) IN
+        \* pushed out of the memory, or released by the peer's own announcement: open
+        forgotten == EverSeen(p) /\ (~Remembered(p) \/ p < floor)
+        deliver == ~EverSeen(p) \/ (forgotten /\ redeliver)
+        pushed == IF deliver THEN Evicts(seen, p) ELSE {}
+        again == deliver /\ Remembered(p) IN                    \* a released, still remembered ID dispatched again
     /\ pend' = {e \in pend : e.id \notin hit}
     /\ done' = done \cup hit
     /\ ackedSince' = ackedSince \cup hit
-    /\ UNCHANGED <<failed, relIssued, xmits, life>>
+    /\ UNCHANGED <<failed, relIssued, xmits, life, floor, pongs>>
+    /\ openSeen' = IF rel /\ forgotten THEN openSeen \cup {p} ELSE openSeen
     /\ IF rel
        THEN /\ aid > lastId
             /\ lastId' = aid /\ ids' = Append(ids, aid)
             /\ seen' = IF deliver THEN Admit(seen, p) ELSE seen
-            /\ evN' = IF deliver /\ Evicts(seen) # {} THEN Inc(evN, Head(seen), 1) ELSE evN
+            /\ evN' = LET e1 == IF pushed # {} THEN Inc(evN, CHOOSE h \in pushed : TRUE, 1) ELSE evN IN
+                       IF again THEN Inc(e1, p, 1) ELSE e1
             /\ rR' = Inc(rR, p, 1) /\ aR' = Inc(aR, p, 1)
             /\ dR' = Inc(dR, p, IF deliver THEN 1 ELSE 0)
             /\ UNCHANGED <<rU, dU>>
             /\ Dispatch(deliver, match)
-            /\ out' = [acks |-> <<p>>, deliver |-> deliver, open |-> forgotten, tx |-> {}, completed |-> hit, failed |-> {},
+            /\ out' = [acks |-> <<p>>, deliver |-> deliver, byname |-> TRUE, pong |-> FALSE, open |-> forgotten, tx |-> {}, completed |-> hit, failed |-> {},
                        calls |-> CallsOf(deliver, match)]
        ELSE /\ rU' = Inc(rU, p, 1) /\ dU' = Inc(dU, p, 1)
             /\ UNCHANGED <<seen, evN, rR, aR, dR, lastId, ids>>
             /\ Dispatch(TRUE, match)
-            /\ out' = [acks |-> <<>>, deliver |-> TRUE, open |-> FALSE, tx |-> {}, completed |-> hit, failed |-> {}, calls |-> CallsOf(TRUE, match)]
+            /\ out' = [acks |-> <<>>, deliver |-> TRUE, byname |-> TRUE, pong |-> FALSE, open |-> FALSE, tx |-> {}, completed |-> hit, failed |-> {}, calls |-> CallsOf(TRUE, match)]
+
+(* StartPingCheck(OldestUnacked = oldest) from the peer: an unreliable packet of its own name (only    *)
+(* wildcard subscribers see it); the endpoint answers with one CompletePingCheck taking ID cid.       *)
+Ping(oldest, cid) ==
+    /\ cid > lastId
+    /\ lastId' = cid /\ ids' = Append(ids, cid)
+    /\ floor' = IF oldest > floor THEN oldest ELSE floor
+    /\ pongs' = pongs + 1
+    /\ UNCHANGED <<seen, evN, rR, aR, dR, rU, dU, pend, done, failed, relIssued, ackedSince, xmits, subs, life, openSeen>>
+    /\ out' = [NoOut EXCEPT !.deliver = TRUE, !.byname = FALSE, !.pong = TRUE,
+                            !.tx = {[id |-> cid, rel |-> FALSE, resent |-> FALSE]}]
 
 (* A further subscriber of kind k is registered at level l (after everything registered there before). *)
 Subscribe(l, k) ==
     /\ alive # "dead"
     /\ subs' = [subs EXCEPT ![l] = Append(@, [k |-> k, live |-> TRUE])]
-    /\ UNCHANGED <<seen, evN, rR, aR, dR, rU, dU, pend, done, failed, relIssued, ackedSince, xmits, ids, lastId, life>>
+    /\ UNCHANGED <<seen, evN, rR, aR, dR, rU, dU, pend, done, failed, relIssued, ackedSince, xmits, ids, lastId, life, aux>>
     /\ out' = [NoOut EXCEPT !.calls = [ll \in Levels |-> [i \in 1..Len(subs'[ll]) |-> 0]]]
 
 (* A datagram from an address that is not the peer's: whatever it carries, nothing happens. *)
@@ -180,7 +213,7 @@ SendRel(id) ==
     /\ pend' = pend \cup {[id |-> id, tries |-> Budget, age |-> 0]}
     /\ relIssued' = relIssued \cup {id}
     /\ xmits' = xmits \cup {<<id, 1>>}
-    /\ UNCHANGED <<seen, evN, rR, aR, dR, rU, dU, done, failed, ackedSince, subs, life>>
+    /\ UNCHANGED <<seen, evN, rR, aR, dR, rU, dU, done, failed, ackedSince, subs, life, aux>>
     /\ out' = [NoOut EXCEPT !.tx = {[id |-> id, rel |-> TRUE, resent |-> FALSE]}]
 
 (* send() of an unreliable message: takes an ID, nothing to track.                          *)
@@ -188,7 +221,7 @@ SendUnrel(id) ==
     /\ alive # "dead"
     /\ id > lastId
     /\ lastId' = id /\ ids' = Append(ids, id)
-    /\ UNCHANGED <<seen, evN, rR, aR, dR, rU, dU, pend, done, failed, relIssued, ackedSince, xmits, subs, life>>
+    /\ UNCHANGED <<seen, evN, rR, aR, dR, rU, dU, pend, done, failed, relIssued, ackedSince, xmits, subs, life, aux>>
     /\ out' = [NoOut EXCEPT !.tx = {[id |-> id, rel |-> FALSE, resent |-> FALSE]}]
 
 (* The clock advances by d and the resend pass runs: every pending send whose last          *)
@@ -204,7 +237,7 @@ Tick(d) ==
                \cup {[id |-> e.id, tries |-> e.tries - 1, age |-> 0] : e \in again}
     /\ failed' = failed \cup {e.id : e \in dead}
     /\ xmits' = {IF x[1] \in {e.id : e \in again} THEN <<x[1], x[2] + 1>> ELSE x : x \in xmits}
-    /\ UNCHANGED <<seen, evN, rR, aR, dR, rU, dU, done, relIssued, ackedSince, ids, lastId, subs, life>>
+    /\ UNCHANGED <<seen, evN, rR, aR, dR, rU, dU, done, relIssued, ackedSince, ids, lastId, subs, life, aux>>
     /\ out' = [NoOut EXCEPT !.tx = {[id |-> e.id, rel |-> TRUE, resent |-> TRUE] : e \in again},
                             !.failed = {e.id : e \in dead}]
 
@@ -217,13 +250,15 @@ AckEveryReceipt == \A p \in DOMAIN rR : aR[p] = rR[p]
 \* ... but its message reaches each subscriber at most once (and the first copy does)
 \* (a packet can only be dispatched again after it was pushed out of the memory, once per push-out at most)
 DispatchAtMostOnce == \A p \in DOMAIN rR : dR[p] <= 1 + Get(evN, p) /\ (Remembered(p) => dR[p] >= 1)
+\* ... and never again while it is remembered and not released: in particular the announced `oldest` itself
+ProtectedOnce == \A p \in Range(seen) : Get(evN, p) = 0 => dR[p] = 1
 FirstCopyDispatched == \A p \in DOMAIN rR : rR[p] >= 1 => dR[p] >= 1
 \* the memory holds the newest Window distinct IDs, each once
 MemoryShape == /\ Len(seen) <= Window /\ Range(seen) \subseteq DOMAIN rR
                /\ \A i, j \in DOMAIN seen : seen[i] = seen[j] => i = j
                /\ Cardinality(DOMAIN rR) <= Window => Range(seen) = DOMAIN rR
 \* a duplicate of a remembered ID is never dispatched again: a step that receives one delivers nothing
-RememberedNeverAgain == [][\A p \in Range(seen) : Get(rR', p) > Get(rR, p) => dR'[p] = dR[p]]_vars
+RememberedNeverAgain == [][\A p \in Range(seen) : p >= floor /\ Get(rR', p) > Get(rR, p) => dR'[p] = dR[p]]_vars
 \* unreliable packets are always delivered
 UnreliableAlwaysDelivered == \A p \in DOMAIN rU : dU[p] = rU[p]
 \* the dispatch loop reaches every live subscriber whatever the others do while it runs
